@@ -107,6 +107,7 @@ type gCfg struct {
 	symTyp   bool // stored type byte symbolic (else 't')
 	storeAll bool // every storable occurrence is stored (no symbolic bit)
 	idDV     bool // the _id field is indexed with doc values (symbolic per batch)
+	fixAP    bool // every location / stored value has exactly maxAP array positions
 	noFx     bool // freq of hits with locations is exactly the number of locations
 }
 
@@ -256,7 +257,11 @@ func vGenBatch(cfg gCfg) ([]index.Document, *sSpec) {
 					}
 					nap := 0
 					if cfg.maxAP > 0 {
-						nap = vChoice(fmt.Sprint(cfg.prefix, "snap", tag), cfg.maxAP+1)
+						if cfg.fixAP {
+							nap = cfg.maxAP
+						} else {
+							nap = vChoice(fmt.Sprint(cfg.prefix, "snap", tag), cfg.maxAP+1)
+						}
 					}
 					ap = g.aps("s"+tag, nap)
 					ds.stored = append(ds.stored, sStoredVal{field: gf.name, typ: typ, val: val, ap: ap})
